@@ -371,7 +371,22 @@ def print_stmts(nodes, i, ind=1, opts=None, single=False):
         elif t == 'empty':
             out.append(p + ';')
         elif t == 'yield':
-            out.append(p + 'log(7000 + (yield %d));' % n['n'])
+            if opts.get('yform'):
+                # the same statement with the yield at a deeper operand-stack position / inside another expression kind:
+                # the generator has to save and restore that part of the stack
+                y = '(yield %d)' % n['n']
+                forms = ['log(7000 + %s);' % y,
+                         'log(7000 + [1, 2, %s][2]);' % y,
+                         'log(Math.max(7000, 7000 + %s, -1));' % y,
+                         'log(7000 + ({a: 1, b: %s, c: 3}).b);' % y,
+                         'log(7000 + Number(`${%s}`));' % y,
+                         'log(7000 + (T ? %s : 0));' % y,
+                         'log(7000 + (0, [7, 8].length, %s));' % y,
+                         'log(((a, b, c) => a + c)(7000, 5, %s));' % y,
+                         'log(7000 + (Fa || %s));' % y]
+                out.append(p + forms[(i * 7 + n['n']) % len(forms)])
+            else:
+                out.append(p + 'log(7000 + (yield %d));' % n['n'])
         elif t == 'ystar':
             out.append(p + 'log(8000 + ((yield* %s) || 0));' % mkcall(n))
         elif t == 'fatal':
@@ -500,6 +515,8 @@ def print_js(prog, probes=False, variant="base"):
         opts['constvar'] = True
     if variant == "deadcode":
         opts['deadcode'] = True
+    if variant == "yform":
+        opts['yform'] = True
     body = '\n'.join(print_stmts(nodes, nodes[prog['root'] - 1]['a'], 1, opts))
     star = '*' if prog['gen'] else ''
     pre_body = ''
